@@ -6,3 +6,4 @@ pub mod vecs;
 
 #[global_allocator]
 static GLOBAL: obs::Counting = obs::Counting;
+pub mod giant;
